@@ -1298,7 +1298,9 @@ func (d *Driver) judgeC06() {
 								if t.Fall == nil {
 									claiming = true
 								} else {
-									t0 = t.End
+									// (the follower loop it starts then begins with a Watch call: one more
+									// operation latency before its first look at the key)
+									t0 = t.End + lam
 								}
 							} else if t.Fall != nil && t.End > t0 && t.Start < v.b && t.Start > t0 {
 								// became leader itself inside the window: fine, handled by the vacancy ending
